@@ -915,6 +915,9 @@ public:
       const uint32 numElements = unflat.ReadInt32();
       MRETURN_ON_ERROR(unflat.GetStatus());
 
+      const uint32 maxPossibleElements = unflat.GetNumBytesAvailable() / ((uint32)sizeof(uint32));  // each element needs at least its 4-byte length-prefix
+      if (numElements > maxPossibleElements) return B_BAD_DATA;  // element-count is larger than the input buffer could possibly represent
+
       this->Clear(false);
       MRETURN_ON_ERROR(this->_data.EnsureSize(numElements, true));
       return unflat.ReadFlatsWithLengthPrefixes(this->_data.HeadPointer(), numElements);
